@@ -64,6 +64,19 @@ PROPS["C07"] = dict(
                  "a parent file that exists but is corrupted is only required to be refused where the format validates a signature (VHDX)"],
 )
 
+PROPS["C10"] = dict(
+    engine="extents", level="exploration", quick=3000, thorough=150000,
+    rule=("one evaluation = one seeded directory on the simulated namespace: a VMDK descriptor naming 1-8 extents (FLAT, VMFS, "
+          "SPARSE incl. stream-optimised, VMFSSPARSE, SESPARSE; names with spaces/unicode; flat file offsets), or an explicit list "
+          "of extent handles, or a Parallels .hdd with several storages listed in any order; each extent has its own writer "
+          "history; requests straddle extent boundaries and end at the tail; a missing extent file must make open fail. "
+          "distinct = (mode, extent kinds, number of extents the request touches, tail?) tuples; non-trivial = the request "
+          "touches >=2 extents, or the open had to be refused."),
+    expected_probes=["extents.mode_descriptor", "extents.mode_handles", "extents.mode_hdd", "extents.fault_missing_extent",
+                     "extents.extent_not_multiple_of_16_sectors", "extents.n_8"] + ["extents.kind_" + k for k in ("flat", "hosted", "stream", "cowd", "sesparse", "hds")],
+    assumptions=["ZERO extents and extent names containing directories or quotes are outside the property's enumeration and are not generated"],
+)
+
 NOT_BUILT_REASON = "check not built yet in this session (see DESIGN.md section 11 for the build order); not claimed until its engine exists"
 
 NOT_APPLICABLE = {
@@ -78,6 +91,9 @@ _DISK_NOTE = ("trusted base: the writer stub's reading of the format, the refere
 _DISK_TECH = "deterministic simulation (stub writer peer + simulated storage + reference model oracle), seeded search, ddmin replay"
 
 MANIFEST_TEXT = {
+    "C10": dict(text="seeded deterministic simulation of descriptor-driven multi-file disks on a simulated namespace (incl. missing-extent "
+                     "faults); concatenation reference model; sampled",
+                design_ref="DESIGN.md 4/C10", note=_DISK_NOTE, technique="deterministic simulation (multi-file worlds on a simulated namespace, missing-file fault), concatenation model, ddmin replay"),
     "C07": dict(text="seeded deterministic simulation of layered writer histories on a simulated namespace with parent-location "
                      "configurations and namespace faults; n-layer overlay model + 'open must raise' oracle; sampled",
                 design_ref="DESIGN.md 4/C07", note=_DISK_NOTE + "; parent resolution is exercised through the patched pathlib seam only",
